@@ -104,13 +104,18 @@ def strip_event(e):
     return {k: v for k, v in e.items() if k not in ("tbl", "facts")}
 
 
-def l3_run(chk, name, driver="mixed", strings=600, per_string=4, kinds=None, profiles=None, max_len=8, classify_bad=None, seed_offset=0):
+def l3_run(chk, name, driver="mixed", strings=600, per_string=4, kinds=None, profiles=None, max_len=8, classify_bad=None, seed_offset=0, corpus_file=None):
     """record a trace with the harness, validate it batch-wise with TLC, fold into chk"""
     oracle = ensure_oracle()
     tag = "%d-%s" % (os.getpid(), re.sub(r"\W", "", name))
     trace = os.path.join(CACHE, "l3-%s.ndjson" % tag)
     corpus = os.path.join(CACHE, "corpus-%s.ndjson" % tag)
-    n_corpus = write_corpus(corpus)
+    if corpus_file:
+        import shutil
+        shutil.copyfile(corpus_file, corpus)
+        n_corpus = len(nl_lines(open(corpus).read()))
+    else:
+        n_corpus = write_corpus(corpus)
     args = ["record", "--oracle", oracle, "--out", trace, "--driver", driver, "--seed", str(chk.seed * 7919 + seed_offset),
             "--strings", str(strings), "--per-string", str(per_string), "--corpus", corpus, "--max-len", str(max_len)]
     if kinds:
@@ -203,6 +208,34 @@ def l3_run(chk, name, driver="mixed", strings=600, per_string=4, kinds=None, pro
     return info
 
 
+def race_run(chk, processes=100, long_processes=4, threads=16):
+    """C16: concurrent results equal the sequential ones (pvh race); the sequential ones are judged by TLC"""
+    import shutil
+    oracle = ensure_oracle()
+    d = os.path.join(CACHE, "race-%d" % os.getpid())
+    try:
+        out, t = run_harness(["race", "--oracle", oracle, "--dir", d, "--seed", str(chk.seed), "--processes", str(processes),
+                              "--long-processes", str(long_processes), "--threads", str(threads)], timeout=3000)
+        summ = None
+        for line in nl_lines(out):
+            v = json.loads(line)
+            if "summary" in v:
+                summ = v["summary"]
+            elif "problem" in v:
+                pr = v["problem"]
+                what = "a call repeated sequentially gave a different result" if pr.get("sequential_history") else \
+                    "a call made while other threads were calling the library gave a different result than the same call made sequentially"
+                chk.violation("race: %s: %s" % (what, json.dumps(pr, sort_keys=True)[:700]), {"layer": "race", "case": pr})
+        if summ is None:
+            tool_error("race driver gave no summary")
+        chk.add_part("race: fresh processes x barrier-released threads vs sequential reference", dict(summ, wall_s=round(t, 1)))
+        chk.cov["evaluations"] += summ["concurrent_calls"] + summ["reference_calls"]
+        # the reference side: the same inputs, recorded sequentially and judged by TLC
+        l3_run(chk, "race-inputs", driver="corpus", per_string=6, kinds=["enforce", "enforce", "prepare"], corpus_file=os.path.join(d, "inputs.ndjson"))
+    finally:
+        shutil.rmtree(d, ignore_errors=True)
+
+
 def session_run(chk, processes=6, threads=8, calls=40):
     """C16: multi-threaded sessions, one fresh process each; all traces validated together (shared memo)"""
     oracle = ensure_oracle()
@@ -292,8 +325,13 @@ def _validate_csv_batch(path):
 def csv_trace_run(chk, rows=20000):
     tag = "%d-csv" % os.getpid()
     trace = os.path.join(CACHE, "csv-%s.ndjson" % tag)
-    out, t = run_harness(["csvfuzz", "--seed", str(chk.seed), "--rows", str(rows), "--out", trace,
-                          "--registry", os.path.join(VERIF, "data", "csv", "precis-tables-6.3.0.csv")])
+    scratch = os.path.join(CACHE, "pvh-csvsynth-%d" % os.getpid())
+    try:
+        out, t = run_harness(["csvfuzz", "--seed", str(chk.seed), "--rows", str(rows), "--out", trace, "--scratch", scratch,
+                              "--registry", os.path.join(VERIF, "data", "csv", "precis-tables-6.3.0.csv")])
+    finally:
+        import shutil
+        shutil.rmtree(scratch, ignore_errors=True)
     summary = json.loads(nl_lines(out)[-1])["summary"]
     lines = nl_lines(open(trace).read())
     os.remove(trace)
@@ -325,8 +363,12 @@ def csv_trace_run(chk, rows=20000):
     reg = summary["registry"]
     if reg.get("checked") and reg.get("diffs"):
         chk.violation("the shipped registry file is not read back as written: %s" % json.dumps(reg)[:500], {"layer": "L3-csv", "registry": reg})
+    syn = summary.get("synthetic", {})
+    if syn.get("checked") and syn.get("diffs"):
+        chk.violation("a registry file with long descriptions / malformed rows is not read back as written through the line parser: %s"
+                      % json.dumps(syn)[:700], {"layer": "L3-csv", "synthetic": syn})
     chk.cov["traces_validated_against_impl"] += len(batches)
-    chk.cov["evaluations"] += summary["rows"]
+    chk.cov["evaluations"] += summary["rows"] + syn.get("rows", 0)
     chk.cov["distinct_nontrivial"] += summary["corrupted"]
     chk.add_part("L3:csv rows", dict(summary, unexplained=n_bad, wall_s=round(t, 1)))
     for ln in lines[:2]:
